@@ -134,7 +134,7 @@ def ext_community(rng, kind=None):
     if k in ('color', 'encap'):
         return dict(kind=k, value=rng.choice(U32) if k == 'color' else rng.choice([0, 1, 8, 11, 255, 256, 65535]))
     if k == 'redirect-nh':
-        return dict(kind=k, ip=ipv4(rng), copy=rng.choice([0, 1]))
+        return dict(kind=k, ip=ipv4(rng), copy=rng.choice([0, 1, 0, 1, 2, 255, 32768, 65535]))    # 16-bit local administrator, bit 0 = copy
     if k == 'traffic-rate':
         return dict(kind=k, asn=rng.choice(ASN2 + [0]), rate=rng.choice([0, 1, 100, 1000, 65536, 16777216, 1000000]))
     if k == 'traffic-action':
